@@ -98,6 +98,8 @@ type oblOut struct {
 	File     string  `json:"smt_file,omitempty"`
 	Soft     bool    `json:"soft,omitempty"`
 	output   string
+	res      *vc.FuncResult
+	obl      *vc.Obligation
 }
 
 type knownFinding struct {
@@ -286,7 +288,7 @@ func cmdCheck(args []string) int {
 			all = append(all, o)
 		}
 		for _, o := range all {
-			oo := &oblOut{Function: r.Name, Name: o.Name, Kind: o.Kind, Text: o.Text, Pos: o.Pos, Soft: o.Soft}
+			oo := &oblOut{Function: r.Name, Name: o.Name, Kind: o.Kind, Text: o.Text, Pos: o.Pos, Soft: o.Soft, res: r, obl: o}
 			outs = append(outs, oo)
 			if o.Kind != "cover" && r.Trivial(o) {
 				oo.Status = "unsat"
